@@ -172,10 +172,11 @@ func (c *Conn) ForgetMessage(id imap.MessageID) {
 // Submit hands an update to the server's update stream.  It reports false when
 // nobody is receiving (user removed or server closed).
 func (c *Conn) Submit(u imap.Update) bool {
+	// the non-blocking send happens under the lock, so that Close cannot close the
+	// channel between the test and the send
 	c.mu.Lock()
-	closed := c.closed
-	c.mu.Unlock()
-	if closed {
+	defer c.mu.Unlock()
+	if c.closed {
 		return false
 	}
 	select {
